@@ -16,7 +16,7 @@ def stack_nots(t, k, logic=None):
 
 
 def formulas(tier, rng):
-    cap = 1500 if tier == 'quick' else 12000
+    cap = 1500 if tier == 'quick' else 4000
     out = {}
     ctl = gen.levels(gen.ctl_ops(), 2, cap=cap, rng=rng)
     out['CTL'] = ctl[0] + ctl[1] + ctl[2] + gen.nary_variants()
@@ -26,8 +26,8 @@ def formulas(tier, rng):
     st = gen.ctls_state_formulas(rng, 600 if tier == 'quick' else 5000, 3, 2)
     out['CTLS'] = flat + st + [('X', s) for s in st[:100]]
     if tier == 'thorough':
-        out['CTL'] += [gen.random_tree(rng, gen.ctl_ops(), 3) for _ in range(3000)]
-        out['LTL'] += [gen.random_tree(rng, gen.path_ops(), 3) for _ in range(3000)]
+        out['CTL'] += [gen.random_tree(rng, gen.ctl_ops(), 3) for _ in range(1200)]
+        out['LTL'] += [gen.random_tree(rng, gen.path_ops(), 3) for _ in range(1200)]
     for k in out:
         base = rng.sample(out[k], 60)
         out[k] += [stack_nots(t, n, k) for t in base for n in (2, 3, 4)]
@@ -49,5 +49,5 @@ def run(ctx):
              'equivalence decided by the reference semantics: quantifier-free path formulas on the universal 4-state structure over p,q '
              '(decides LTL equivalence over 2 atoms exactly), formulas with quantifiers on every structure with <=2 states + 40 sampled '
              '3-state structures; alphabet membership syntactic; LNot checked on the same formulas; distinct by (logic, formula)'
-             % ('1500/level' if ctx.tier == 'quick' else '12000/level'))
+             % ('1500/level' if ctx.tier == 'quick' else '4000/level'))
     return deductive.level_for(ctx, 'C05'), CMD
